@@ -140,6 +140,14 @@ CHECKS = {
         text="12 configurations (key_prefix bytes/str, default_noreply, encoding, allow_unicode_keys, serde, pickle serde, legacy serializer pair, legacy deserializer only, timeouts, no_delay, a combination) x 3 server states (miss, numeric hit, text hit with flags) x ~200 calls (every key-addressed operation with every keyword-argument combination incl. cas match/mismatch, defaults, dict-style access) x {PooledClient, HashClient, pooled HashClient, RetryingClient attempts 1 and 2}: same parsed commands at the server (repeated for a raising call under 2 attempts), same result value and type or exception class, same socket options and timeouts in force as Client.",
         note=TB + "Arguments by keyword only (positional orders differ between the classes); packetisation ignored.",
     ),
+    "C19": dict(
+        engine="E2-explicit-state-bfs",
+        level="model_checking",
+        technique="explicit-state BFS over reconfiguration histories of a real AWSElastiCacheHashClient over a simulated cluster (the endpoint serves `config get cluster`), every history replayed on fresh objects; plus exhaustive single-cut and byte-wise delivery of the config reply",
+        design_ref="DESIGN.md section 3 / C19",
+        text="Initial lists of 1..6 nodes from a 6-node universe (ports differ from the endpoint's) x use_vpc x delivery {whole, byte-wise}; all histories of depth <=2 (thorough 3) over up / down_last / down_first / replace_first / replace_all with rising config versions (9 -> 10 -> 11); the config reply additionally cut at every single byte position at construction and at the first reconfiguration. After construction and every reconfigure_nodes(): rotation and clients equal the advertised list by IP or host name and port, every key of a corpus (60, thorough 500) is served without exception by exactly one advertised node, nothing is sent to a node that is no longer advertised, no socket to a replaced node stays open. An ERROR endpoint must make constructor/reconfigure raise a memcached error (known finding).",
+        note=TB + "The reply format of `config get cluster` follows the AWS documentation; every node is reachable by IP and by host name.",
+    ),
 }
 
 PENDING = "check not built yet in this session; planned engine and oracle are in DESIGN.md section 3"
@@ -147,7 +155,7 @@ NOT_APPLICABLE = {f"C{i:02d}": PENDING for i in range(1, 21)}
 
 ENGINES = [
     {"name": "E2-explicit-state-bfs", "path": "checks/c09.py (pattern shared by C05, C11, C13, C19)",
-     "serves_properties": ["C05", "C09", "C11", "C13"],
+     "serves_properties": ["C05", "C09", "C11", "C13", "C19"],
      "kind_free_text": "explicit-state BFS: a state is the event history reaching it, rebuilt on fresh real objects; canonical form de-duplicates; every transition runs the implementation"},
     {"name": "input-enumerator", "path": "checks/c02.py, checks/c20.py (and c14, c15, c17, c18)",
      "serves_properties": ["C02", "C12", "C14", "C15", "C16", "C17", "C18", "C20"],
